@@ -169,6 +169,11 @@ def configs():
                     check_hitbounds=True, accept_nan=False))
     out.append(dict(names=["a"], defaults=[0.0], mins=[-INF], maxs=[INF],
                     check_hitbounds=False, accept_nan=True))
+    # element names that look like private attributes / contain digits and capitals
+    out.append(dict(names=["_k", "b"], defaults=[0.5, 0.5], mins=[0.0, 0.0],
+                    maxs=[1.0, 1.0], check_hitbounds=True, accept_nan=False))
+    out.append(dict(names=["X1", "__w"], defaults=[0.5, 0.0], mins=[0.0, -1.0],
+                    maxs=[1.0, 1.0], check_hitbounds=True, accept_nan=True))
     out.append(dict(names=[], defaults=[], mins=[], maxs=[], check_hitbounds=True,
                     accept_nan=False))
     out.append(dict(names=[], defaults=[], mins=[], maxs=[], check_hitbounds=False,
@@ -512,11 +517,12 @@ SETUP = {"BoxCox1lam": {"nu": 0.3}, "BoxCox1nu": {"lam": 0.4},
          "LogSinh": {"xmax": 2.0}, "Manly": {"xmax": 3.0}}
 ASSIGN = {"Logit": [("lower", -0.5), ("logdelta", 1.0), ("logdelta", 50.0)],
           "Log": [("nu", 0.2), ("nu", -1.0), ("nu", 3.0)],
-          "BoxCox2": [("nu", 0.1), ("lam", 0.0), ("lam", 7.0)],
+          "BoxCox2": [("nu", 0.1), ("lam", 0.0), ("lam", 7.0), ("lam", 3e-11)],
           "BoxCox1lam": [("lam", 0.5), ("lam", -9.0), ("nu", 0.7)],
           "BoxCox1nu": [("nu", 0.25), ("nu", -3.0), ("lam", 0.0)],
           "BoxCox2sym": [("nu", 0.5), ("lam", 0.2), ("lam", 5.0)],
-          "YeoJohnson": [("nu", -0.3), ("scale", 2.0), ("lam", 2.0)],
+          "YeoJohnson": [("nu", -0.3), ("scale", 2.0), ("lam", 2.0), ("lam", 2.000001),
+                         ("lam", 1e-9)],
           "Reciprocal": [("nu", 0.5), ("nu", -1.0), ("nu", 2.0)],
           "Sinh": [("nu", 0.1), ("scale", 0.5), ("scale", -1.0)],
           "LogSinh": [("loga", -2.0), ("logb", 0.3), ("loga", 1.0)],
